@@ -57,13 +57,13 @@ struct LqRun {
         bool comp = op.arg(0) != 0; env.lib_calls += 3;
         size_t n = R.jv_lq_get_marshalled_length(view, JV_OK_LQ_MSK, comp);
         env.check(n == 32, "C15", "length:matches-format", strf("LQ master key marshalled length %zu != 32", n));
-        Bytes b(n, 0xA5); R.jv_lq_marshal(view, JV_OK_LQ_MSK, b.p, msk, comp);
+        MBytes b(n, (size_t) (env.step % 3) * 5 % 16, 0xA5); R.jv_lq_marshal(view, JV_OK_LQ_MSK, b.p, msk, comp);   // byte buffers have no alignment guarantee
         std::vector<uint8_t> v(b.p, b.p + n); uint8_t want[32]; s_raw.to_le(want, 32);
         env.check(memcmp(v.data(), want, 32) == 0, "C15", "marshal:layout", "LQ master key bytes are not the scalar's little-endian bytes");
         for (auto& f : op.s) { if (apply_byte_fault(v, f)) env.count("fault:master_scalar_" + f.substr(0, f.find(':'))); }
         if (!op.s.empty() && op.s[0] == "ge_r") { Bn big = Bn::add(s_raw, K().r); if (big < K().two256) { big.to_le(v.data(), 32); env.count("fault:master_scalar_plus_r"); } }
         if (!op.s.empty() && op.s[0] == "max") { std::fill(v.begin(), v.end(), 0xFF); env.count("fault:master_scalar_all_ff"); }
-        Bytes in(v.data(), v.size()); Buf m2(R.sz(JV_SZ_LQ_MSK));
+        MBytes in(v.data(), v.size(), (size_t) (env.step % 4) * 3 + 1); Buf m2(R.sz(JV_SZ_LQ_MSK));
         int ok = R.jv_lq_unmarshal(view, JV_OK_LQ_MSK, m2, in.p, comp, op.arg(1) != 0);
         env.check(ok == 1, "C15", "roundtrip:accepted", "LQ master key unmarshal failed");
         msk = std::move(m2); s_raw = msk_scalar();
@@ -156,7 +156,7 @@ struct LqRun {
         env.lib_calls += 2;
         size_t n = R.jv_lq_get_marshalled_length(view, oks[k], comp);
         env.check(n == mb.size(), "C15", "length:matches-format", strf("%s get_marshalled_length = %zu, the format needs %zu", names[k], n, mb.size()));
-        size_t pad = R.info.sanitized ? 0 : 32; Bytes b(n + pad, 0xA5); R.jv_lq_marshal(view, oks[k], b.p, *obj, comp);
+        size_t pad = R.info.sanitized ? 0 : 32; MBytes b(n + pad, (size_t) (env.step % 5) * 3, 0xA5); R.jv_lq_marshal(view, oks[k], b.p, *obj, comp);
         for (size_t i = n; i < n + pad; i++) env.check(b.p[i] == 0xA5, "C15", "marshal:writes-exactly-reported-length", std::string(names[k]) + " marshal wrote beyond the reported length");
         std::vector<uint8_t> bytes(b.p, b.p + n);
         env.check(bytes == mb, "C15", "marshal:layout", std::string(names[k]) + " bytes differ from the format");
@@ -168,7 +168,7 @@ struct LqRun {
             else if (p[0] == "flip") { fired = apply_byte_fault(dmg, tok); ftag += "flip+"; env.count("fault:flip"); }
         }
         for (auto& e : el) { std::string w1; if (!model_canonical(R, e.first, comp, &dmg[e.second], w1)) { invalid = true; why = w1; break; } }
-        Bytes in(dmg.data(), dmg.size()); Buf o2(R.sz(szs[k])); env.lib_calls++;
+        MBytes in(dmg.data(), dmg.size(), (size_t) (env.step % 7) * 2 + 1); Buf o2(R.sz(szs[k])); env.lib_calls++;
         int ok = R.jv_lq_unmarshal(view, oks[k], o2, in.p, comp, checked);
         env.logf("LQHOP %s c%d k%d %s ok=%d invalid=%d", names[k], comp, checked, ftag.c_str(), ok, invalid);
         if (checked && invalid && ok) env.fail("C15", "validating-unmarshal-rejects-invalid-element", strf("validating %s unmarshal accepted an invalid embedded element (%s), fault %s", names[k], why.c_str(), ftag.c_str()));
@@ -197,7 +197,7 @@ struct LqScenario : Scenario {
         p.ops.push_back({"ID", {}, {rhex(r, 48)}}); p.ops.push_back({"ID", {}, {rhex(r, 48)}});
         if (hopenum) {
             p.ops.push_back({"KEYGEN", {0}, {}}); p.ops.push_back({"ENC", {(int64_t) (r.next() >> 1), 0, 3}, {}});
-            std::vector<std::string> kinds = invalid_kinds(); kinds.push_back("other");
+            std::vector<std::string> kinds = invalid_kinds(); kinds.push_back("other"); kinds.push_back("infinity");
             for (int k = 0; k < 4; k++) for (int comp = 0; comp < 2; comp++) for (int chk = 0; chk < 2; chk++) {
                 p.ops.push_back({"HOP", {k, 0, comp, chk}, {}});
                 for (int e = 0; e < (k == 0 ? 2 : 1); e++) for (auto& kd : kinds) p.ops.push_back({"HOP", {k, 0, comp, chk}, {strf("elem:%d:%s:%llu", e, kd.c_str(), (unsigned long long) (r.next() >> 8))}});
